@@ -532,6 +532,18 @@ def measure_list_writers(FB):
                 rows = f"{name}: {err}"
                 break
             rows.append((n, len(sink.out), per))
+            if n == 3 and isinstance(v[1], list) and len(v[1]) == 3 and isinstance(v[1][1], tuple) and v[1][1][0] == "struct" and "achievement" in v[1][1][2]:
+                # a value the API allows although no decode produces it: an entry whose id equals the end marker 0xFFFFFFFF. size() counts
+                # every entry, so the writer has to write every entry
+                import copy
+                vals = copy.deepcopy(v[1])
+                vals[1][2]["achievement"] = 0xFFFFFFFF
+                sink2 = Sink()
+                w2, err2 = _run(_mk(FB, _opaque_datetime()), W + name, [vals, sink2])
+                if err2:
+                    rows = f"{name} (an entry with id 0xFFFFFFFF): {err2}"
+                    break
+                rows.append((3, len(sink2.out), per))
         out[name] = rows
     # addon array: elements are 8 constant bytes
     rows = []
